@@ -95,7 +95,7 @@ def run_timers(prop, tier, seed, cap=None, kcap=None):
         random.Random(seed).shuffle(behs)
         behs = behs[:cap]
     # key-reuse focused configurations: exhaustive, every final state exported
-    for kc in ("MCTimers_keysf.cfg", "MCTimers_keysv.cfg", "MCTimers_long.cfg", "MCTimers_near.cfg", "MCTimers_sub.cfg", "MCTimers_long2.cfg", "MCTimers_r75.cfg"):
+    for kc in ("MCTimers_keysf.cfg", "MCTimers_keysv.cfg", "MCTimers_long.cfg", "MCTimers_near.cfg", "MCTimers_sub.cfg", "MCTimers_long2.cfg", "MCTimers_r75.cfg", "MCTimers_past.cfg"):
         st, tr, bad, text = _tlc_mc("MCTimers.tla", kc, "tmk-%s" % prop)
         out["states"] += st
         out["transitions"] += tr
@@ -129,7 +129,7 @@ SPECS = {
     "C03": [lambda p, t, s: run_core("a", p, t, s)],
     "C04": [lambda p, t, s: run_core("a", p, t, s)],
     "C05": [lambda p, t, s: run_core("a", p, t, s)],
-    "C16": [lambda p, t, s: run_core("a", p, t, s)],
+    "C16": [lambda p, t, s: run_core("a", p, t, s), lambda p, t, s: run_core("q", p, t, s)],
     "C20": [lambda p, t, s: run_core("l", p, t, s), lambda p, t, s: run_core("l2", p, t, s)],
 }
 
